@@ -649,8 +649,8 @@ func (e *Env) call(x *ECall) (Val, types.Type) {
 		}
 		ev := t.elemsVar(sl.Elem())
 		return Val{T: t.seqOf(fmt.Sprintf("(select %s (sbase %s))", t.get(e.st, ev.Name), v.T), sl.Elem())}, types.NewArray(sl.Elem(), -1)
-	case "in", "add":
-		// in(s, x) / add(s, x) on the spec-only set type set[T]
+	case "setin", "setadd":
+		// setin(s, x) / setadd(s, x) on the spec-only set type set[T]
 		sv, sty := arg(0)
 		x0, xt := arg(1)
 		at, ok := sty.Underlying().(*types.Array)
@@ -658,7 +658,7 @@ func (e *Env) call(x *ECall) (Val, types.Type) {
 			return e.fail("%s() needs a set[T]", x.Fun)
 		}
 		xv := e.coerce(x0, xt, at.Elem())
-		if x.Fun == "in" {
+		if x.Fun == "setin" {
 			return Val{T: fmt.Sprintf("(select %s %s)", sv.T, xv)}, tBool
 		}
 		return Val{T: fmt.Sprintf("(store %s %s true)", sv.T, xv)}, sty
